@@ -172,7 +172,14 @@ def fixslice_lanes(m, cfgname, self_ty, sname, direction, single, par):
     if summ is None:
         if verdict is False:
             return [('vL', 'L-lane-agreement', base + '|lemma', '%s: %s' % (sname, lem))]
-        return [('undec', 'L-lane-agreement', base, '%s: bit-level mode not applicable (%s)' % (sname, lem))]
+        # one entry per lane so that the instance count (floor) does not depend on whether the bit-level anchors exist
+        nl = 4
+        try:
+            pt = m.ty(m.ty(par['mir']['locals'][2])['variants'][0]['f'][0]['t'])
+            nl = max(1, m.ty(pt['t']).get('size', 64) // 16)
+        except Exception:
+            pass
+        return [('undec', 'L-lane-agreement', base + '|lane%d' % i, '%s: bit-level mode not applicable (%s)' % (sname, lem)) for i in range(nl)]
     cipher_s = wrapped_cipher(m, self_ty)
     if cipher_s is None:
         return [('undec', 'L-lane-agreement', base, '%s: not a wrapper around a reference to the cipher' % sname)]
